@@ -124,12 +124,27 @@ template <unsigned N, class E> void c_compare(E& e) {
   const bool eb = std::equal(x.begin(), x.begin() + N, y.begin());
   e.ensure("equal", verdict(e, ea == eb));
 }
+// equal with a user predicate (a strict order here: differs from operator== on every pair), and a counting predicate for the call sequence
+template <unsigned N, class E> void c_equal_pred(E& e) {
+  using T = typename E::real;
+  const auto x = sym_array<N>(e, "x");
+  const auto y = sym_array<N>(e, "y");
+  std::vector<T> la, lb;
+  const bool ea = fs::equal<N>::exe(x.begin(), y.begin(), [&la](const T& a, const T& b) { la.push_back(a); la.push_back(b); return a < b; });
+  const bool eb = std::equal(x.begin(), x.begin() + N, y.begin(), [&lb](const T& a, const T& b) { lb.push_back(a); lb.push_back(b); return a < b; });
+  const bool same = same_range(la, lb);
+  e.ensure("equal(pred): same verdict", verdict(e, ea == eb));
+  e.ensure("equal(pred): the predicate is applied to the same pairs in the same order", verdict(e, same));
+}
+#define P(N) template <class E> void p_##N(E& e) { c_equal_pred<N>(e); } VSYM_CONTRACT_B("N=" #N "/equal(pred)", p_##N, 4000)
 #define S(N) template <class E> void s_##N(E& e) { c_straight<N>(e); } VSYM_CONTRACT("N=" #N "/copy-fill-transform-accumulate-inner_product-for_each-generate-iota-swap_ranges", s_##N)
 #define Q(N) template <class E> void q_##N(E& e) { c_compare<N>(e); } VSYM_CONTRACT_B("N=" #N "/min_element-max_element-equal", q_##N, 4000)
 S(0) S(1) S(2) S(3) S(4) S(5) S(6) S(7) S(8) S(9) S(10) S(11) S(12) S(16) S(17)
 Q(0) Q(1) Q(2) Q(3) Q(4)
+P(0) P(1) P(2) P(3) P(4) P(5) P(6)
 #ifdef VERIF_THOROUGH
 S(13) S(14) S(15) S(24) S(31) S(32) S(33) S(48) S(63) S(64)
 Q(5) Q(6) Q(7) Q(8)
+P(7) P(8) P(12) P(16)
 #endif
 int main(int argc, char** argv) { return vsym::driver_main(argc, argv); }
